@@ -19,7 +19,7 @@ PROP = {'gen': ['sixel'],
                'rasterize blend_over and the 64-bit content hash are oracles. No axioms.',
  'technique': 'Coq proof (encoder/interpreter round trip for every hash iteration order) + regenerated tables + model/implementation correspondence',
  'design_ref': 'DESIGN.md 6.12',
- 'n_quick': 230,
+ 'n_quick': 200,
  'n_thorough': 3500,
  'shard': 20,
  'level': 'proof',
